@@ -24,6 +24,7 @@ from gen import xmlfuzz_gen as G
 
 DEPS = ["hwv_dump.h", "hwv_load.h"]
 WF_PRELUDE = ["hvnum.ml", "hvdump.ml"]
+COVFLAGS = ["-DHWV_COV"] if getattr(C, "COV", False) else []     # coverage survey build only (gen/coverage_survey.sh)
 
 # clauses of wf_check that talk about sets / ids / root type only: what the FIXME in hwloc_look_xml
 # says is never validated on import
@@ -45,8 +46,23 @@ SET_CLAUSES = {
 OSDEV_KNOWN_BITS = 0x3f | 0x40   # STORAGE..OPENFABRICS, DMA
 
 
+_FEATURES = None
+
+
+class _Features(dict):
+    """feature documents of gen/xmlfuzz_gen.py by name (what they must load as / show), built on first use"""
+    def get(self, k, d=None):
+        global _FEATURES
+        if _FEATURES is None:
+            _FEATURES = {f["name"]: f for f in G.feature_docs()}
+        return _FEATURES.get(k, d)
+
+
+FEATURES = _Features()
+
+
 def prebuild():
-    C.build_harness("hwv_xmlfuzz", ["hwv_xmlfuzz.c"], deps=DEPS)
+    C.build_harness("hwv_xmlfuzz", ["hwv_xmlfuzz.c"], deps=DEPS, extra_flags=COVFLAGS)
     C.extract("C01", "drv_c01.ml", prelude=WF_PRELUDE)
     tok_build()
     C.extract("C06", "drv_c06.ml", prelude=["hvnum.ml"])
@@ -59,11 +75,12 @@ def tok_build():
 
 # ------------------------------------------------------------------ jobs ----
 class Job:
-    __slots__ = ("id", "kind", "backend", "method", "tflags", "opts", "data", "origin", "path", "out", "err", "status")
+    __slots__ = ("id", "kind", "backend", "method", "tflags", "opts", "data", "origin", "path", "out", "err", "status", "feature")
 
     def __init__(self, kind, backend, method, tflags, opts, data, origin):
         self.kind, self.backend, self.method, self.tflags, self.opts, self.data, self.origin = kind, backend, method, tflags, opts, data, origin
         self.id = self.path = self.out = self.err = self.status = None
+        self.feature = FEATURES.get(origin[8:]) if origin.startswith("feature:") else None
 
     def line(self):
         return "%s %s %d %s %d %d %s\n" % (self.id, self.kind, self.backend, self.method, self.tflags, self.opts, self.path)
@@ -200,7 +217,7 @@ def classify_crash(job):
         return "assert:%s" % am.group(2), "failed assertion in %s (%s): `%s' in phase %s" % (am.group(2), am.group(1), am.group(3)[:120], phase)
     if top[0] == "hwloc_connect_levels" and "null pointer passed" in err:
         return "no-normal-children-memcpy-null", "a root without normal children (no PU at all) reaches hwloc_connect_levels: memcpy(objs, root->children == NULL, 0): " + where
-    if kind == "asan-stack-overflow" and "hwloc__xml_import_object" in funcs:
+    if kind == "asan-stack-overflow" and (("hwloc__xml_import_object" in funcs) or (phase == "load" and job.data.count(b"<object") > 5000)):
         return "deep-nesting-stack-overflow", "hwloc__xml_import_object recurses once per nesting level without any bound: a document with tens of thousands of nested <object> elements exhausts the stack (SIGSEGV also without sanitizers): " + where
     if "Assertion `obj->attr->bridge.downstream_type" in err:
         return "bridge-type-unvalidated-assert", "bridge_type values are imported unchecked (FIXME in hwloc__xml_import_object_attr): hwloc_obj_type_snprintf() asserts downstream_type == HWLOC_OBJ_BRIDGE_PCI: " + where
@@ -253,6 +270,17 @@ def judge(run, job, wf_lines):
     if re.search(r"snprintf-(unterminated|negative)|export-xml bad-length|userdata-cb absurd-length", out):
         m = re.search(r"(snprintf-unterminated \w+|snprintf-negative|export-xml bad-length|userdata-cb absurd-length)", out)
         v.append((m.group(1).replace(" ", "-"), "read-only battery: " + m.group(1)))
+    if job.feature is not None:
+        f = job.feature
+        loaded = ("\nload rc=0" in out) if job.kind == "topo" else ("diff-load rc=0" in out)
+        strict = f["loads"] is not None and (job.backend == f["backends"][0] or f["backends"] == (0, 1))
+        if strict and f["loads"] != loaded:
+            v.append(("feature:%s:%s" % (f["name"], "refused" if f["loads"] else "accepted"), "document '%s' (backend %d) is %s although %s is expected" % (
+                f["name"], job.backend, "refused" if f["loads"] else "accepted", "a successful import" if f["loads"] else "a refusal")))
+        if loaded and strict:
+            miss = [e for e in f["expect"] if not re.search(e, out)]
+            if miss:
+                v.append(("feature:%s:expect" % f["name"], "document '%s' (backend %d) loads but the topology does not show %s" % (f["name"], job.backend, miss[:3])))
     if job.kind == "topo":
         mset = re.search(r"set rc=(-?\d+)", out)
         mload = re.search(r"\nload rc=(-?\d+)", out)
@@ -269,8 +297,10 @@ def judge(run, job, wf_lines):
                     v.append(("wf:%s" % ",".join(c for c in clauses if c not in SET_CLAUSES), "loaded topology violates WF clause(s) %s" % ",".join(clauses)))
             if chk and chk.group(1) != "ok" and wf is not None and wf.startswith("wf ok"):
                 cm = re.search(r": (hwloc__check_\w+|hwloc_topology_check): Assertion `([^']*)' failed", job.err)
-                if cm and "gp_index" in cm.group(2):
-                    v.append(("gp-index-unvalidated-check-abort", "gp_index values are imported unchecked (0, or colliding once truncated to the 32-bit bitmap index used by hwloc__check_object): hwloc_topology_check() aborts: `%s'" % cm.group(2)[:100]))
+                gps = [int(g) for g in re.findall(r"\nO \d+ ty=\d+ dp=-?\d+ os=\d+ gp=(\d+)", out)]
+                gpbad = 0 in gps or len(set(g % 4294967296 for g in gps)) != len(gps)
+                if (cm and "gp_index" in cm.group(2)) or (not cm and gpbad):
+                    v.append(("gp-index-unvalidated-check-abort", "gp_index values are imported unchecked (0, or colliding once truncated to the 32-bit bitmap index used by hwloc__check_object): hwloc_topology_check() aborts: `%s'" % (cm.group(2)[:100] if cm else "")))
                 else:
                     v.append(("topology_check-abort-wf-ok:%s" % (cm.group(1) if cm else "?"), "hwloc_topology_check() aborts on a loaded topology that wf_check accepts: %s" % (cm.group(2)[:120] if cm else "")))
             if re.search(r"dup rc=0", out) and "dup-check abort" in out and chk and chk.group(1) == "ok":
@@ -332,8 +362,8 @@ def make_jobs(run, exe, scratch):
     def add(kind, data, origin, backends=(0,), methods=("buf",), tflags=None, opts=None):
         for b in backends:
             for me in methods:
-                # option bits: 1/2 userdata callback modes, 4 keep all types, 8 built-in XML exporter in the battery, 16 reload from XML
-                o = (rng.choice([4, 4, 5, 6, 0, 1]) | rng.choice([8, 8, 0]) | rng.choice([16, 0])) if opts is None else opts
+                # option bits: 1/2 userdata callback modes, 4 keep all types, 8 built-in XML exporter in the battery, 16 reload from XML, 32 importer diagnostics on
+                o = (rng.choice([4, 4, 5, 6, 0, 1]) | rng.choice([8, 8, 0]) | rng.choice([16, 0]) | rng.choice([32, 0, 0, 0, 0, 0])) if opts is None else opts
                 jobs.append(Job(kind, b, me, rng.choice(TFLAGS) if tflags is None else tflags, o, data, origin))
 
     # 0. regression corpus (minimised reproducers), every backend/method they name
@@ -444,6 +474,10 @@ def make_jobs(run, exe, scratch):
             doc = base.replace(b"</topology>", bad + b"</topology>")
             add("topo", doc, "late-failure:%s:%d" % (bname, k), backends=(0, 1), tflags=0, opts=4 | 16)
             add("topo", doc, "late-failure:%s:%d" % (bname, k), backends=(0,), tflags=0, opts=4)
+    # 6d. feature documents: compatibility conversions, every sub-element and every documented refusal, with expectations
+    for f in G.feature_docs():
+        for b in f["backends"]:
+            jobs.append(Job(f["kind"], b, f["method"], f["tflags"], f["opts"], f["data"], "feature:" + f["name"]))
     # 7. nesting depth: one C stack frame of hwloc__xml_import_object per level
     depth = 30000
     o = b'<object type="Group" cpuset="0x1" complete_cpuset="0x1" nodeset="0x1" complete_nodeset="0x1" kind="0" subkind="0">'
@@ -556,7 +590,7 @@ def check(run, replay=None):
     t0 = time.time()
     proof = C.prove("C06")
     tm["prove"] = round(time.time() - t0, 1)
-    exe = C.build_harness("hwv_xmlfuzz", ["hwv_xmlfuzz.c"], deps=DEPS)
+    exe = C.build_harness("hwv_xmlfuzz", ["hwv_xmlfuzz.c"], deps=DEPS, extra_flags=COVFLAGS)
     wfdrv = C.extract("C01", "drv_c01.ml", prelude=WF_PRELUDE)
     scratch = tempfile.mkdtemp(prefix="hwv-c06-", dir=os.environ.get("TMPDIR", "/tmp"))
     try:
@@ -597,7 +631,7 @@ def check(run, replay=None):
         for key, (j, what) in sorted(found.items()):
             known = any(re.fullmatch(k["key"], key) for k in run.known)
             jj = j
-            if not known and not replay and key not in ("not-run",) and len(j.data) > 40:
+            if not known and not replay and key not in ("not-run",) and len(j.data) > 40 and not key.startswith("feature:"):
                 try:
                     jj = shrink(run, exe, wfdrv, j, key, scratch)
                 except Exception:
